@@ -203,8 +203,18 @@ func genStream(t *rapid.T, label string, maxLines, maxLen int) Stream {
 		n = n % 12
 	}
 	s := Stream{FinalNewline: rapid.IntRange(0, 3).Draw(t, label+"-final-nl") > 0}
-	for i := 0; i < n; i++ {
-		s.Lines = append(s.Lines, genLine(t, maxLen))
+	// the statement quantifies over 0..10^6 bytes per stream (quick: a quarter of that)
+	budget := 250000
+	if ev.Thorough() {
+		budget = 1000000
+	}
+	for i := 0; i < n && budget > 0; i++ {
+		l := genLine(t, maxLen)
+		if l.Len+1 > budget {
+			l.Len = budget - 1
+		}
+		budget -= l.Len + 1
+		s.Lines = append(s.Lines, l)
 	}
 	s.Cuts = rapid.SliceOfN(rapid.IntRange(1, 999), 0, 8).Draw(t, label+"-cuts")
 	s.PausesUs = rapid.SliceOfN(rapid.SampledFrom([]int{0, 0, 200, 1000, 3000}), 0, 4).Draw(t, label+"-pauses")
